@@ -29,7 +29,12 @@ def r1(ctx):
             e = sym.call_expr(b.term)
             seq = e[2][0]
             n_sol += 1
-            good = mentions_name(seq, "seq") or (mentions_field(seq, "seq") and (mentions_name(seq, "request") or mentions_name(seq, "x") or mentions_name(seq, "series") or mentions(seq, lambda s: s[0] == "variant"))) or mentions_field(seq, "ecsn")
+            def good1(q):
+                return (mentions_name(q, "seq") or (mentions_field(q, "seq") and (mentions_name(q, "request") or mentions_name(q, "x") or mentions_name(q, "series") or mentions(q, lambda s: s[0] == "variant"))) or mentions_field(q, "ecsn")
+                        # the sequence number carried by the transport-level error being answered
+                        or (mentions_name(q, "err") and mentions(q, lambda s: s[0] == "variant" and s[2] in ("UnknownFunction", "RequestValidationError"))))
+            alts = seq[1] if seq[0] == "phi" else (seq,)
+            good = all(good1(q) for q in alts)
             bad = mentions_field(seq, "unsolicited_seq")
             ctx.check(good and not bad, "sol-seq@%s#%d" % (short(bd.path), b.term.line - bd.line), "solicited header seq = %s" % expr_str(seq)[:120], bd.where(b.idx))
         for b in call_sites(bd, r"ControlField::unsolicited_response$"):
